@@ -9,6 +9,10 @@ namespace drv {
 struct Viol {
     std::string kind, detail;
 };
+inline int g_alias_calls = 0; // prj: call with every alias of every argument
+// which alias objects of a class may carry: 0 / 1 = only that one (the only id
+// a record registered), -1 = both (one record per alias)
+inline int8_t g_forced_alias[rx::MAXC] = {};
 
 inline std::string err_text(const std::optional<hx::error_type>& e) {
     using namespace yorel::yomm2;
@@ -32,22 +36,57 @@ inline std::string err_text(const std::optional<hx::error_type>& e) {
 // Applies the oracles selected by `props` (substring match on "C01" ..) to one
 // registry. Appends violations. `obs_text` (optional) receives every
 // observation for the second oracle.
+inline int g_reupdate = 0; // run update again on the same registrations
 inline void check_dispatch(
     const rx::Registry& r, const std::string& props, std::vector<Viol>& out,
-    std::string* obs_text = nullptr) {
+    std::string* obs_text = nullptr, bool again = false) {
     const bool c01 = props.find("C01") != std::string::npos;
     const bool c02 = props.find("C02") != std::string::npos;
     const bool c03 = props.find("C03") != std::string::npos;
+    if (!again)
+        g_reupdate = geti("reupdate", 0);
 
     hx::Built b;
-    run::note("update");
-    hx::build(r, b);
+    if (!again) {
+        run::note("update");
+        hx::build(r, b);
+        COUNT("registrations", r.nr + r.nm);
+    } else {
+        run::note("second update");
+        // poison what update must rewrite
+        for (int mi = 0; mi < r.nm; ++mi)
+            for (int di = 0; di < r.meths[mi].nd; ++di)
+                hx::g_defs[r.meths[mi].shape * rx::MAXD + di].next = (void*)0x1;
+        hx::do_update(b);
+    }
     COUNT("updates", 1);
-    COUNT("registrations", r.nr + r.nm);
     if (!b.ok) {
-        out.push_back({"update_failed", "update reported " + err_text(b.err)});
+        out.push_back(
+            {again ? "second_update_failed" : "update_failed",
+             "update reported " + err_text(b.err)});
         return;
     }
+    struct Again {
+        const rx::Registry& r;
+        const std::string& props;
+        std::vector<Viol>& out;
+        bool go;
+        ~Again() {
+            if (go) {
+                size_t before = out.size();
+                check_dispatch(r, props, out, nullptr, true);
+                for (size_t i = before; i < out.size(); ++i)
+                    out[i].kind = "after_second_update:" + out[i].kind;
+            }
+        }
+    } run_again{r, props, out, g_reupdate && !again};
+    unsigned long long digest = 1469598103934665603ull;
+    struct AddDigest {
+        unsigned long long& d;
+        ~AddDigest() {
+            COUNT("digest", d & 0xffffffffffffull);
+        }
+    } add_digest{digest};
 
     for (int mi = 0; mi < r.nm; ++mi) {
         const rx::Meth& m = r.meths[mi];
@@ -70,9 +109,21 @@ inline void check_dispatch(
 
         run::note("calls");
         rx::for_each_tuple(r.po, m, [&](const int8_t* a) {
+          const unsigned nalias = g_alias_calls ? 1u << m.arity : 1u;
+          for (unsigned ab = 0; ab < nalias; ++ab) {
+            bool legal = true;
+            for (int k = 0; k < m.arity; ++k)
+                if (g_forced_alias[a[k]] >= 0 &&
+                    (int)((ab >> k) & 1) != g_forced_alias[a[k]])
+                    legal = false;
+            if (g_alias_calls && !legal)
+                continue;
             int exp = rx::expected_call(r.po, m, a);
-            hx::set_dyn(a, m.arity);
+            hx::set_dyn(a, m.arity, (uint8_t)ab);
             hx::Obs ob = hx::observe_call(m, a);
+            digest = digest * 1099511628211ull ^
+                (unsigned long long)(ob.outcome + 7) ^
+                ((unsigned long long)(ob.resolved + 7) << 8);
             COUNT("calls", 2); // resolve + call
             if (exp >= 0)
                 COUNT("cells_def", 1);
@@ -159,6 +210,7 @@ inline void check_dispatch(
                                  " expected " + std::to_string(witness_exp)});
                 }
             }
+          }
         });
 
         if (c03) {
@@ -173,6 +225,7 @@ inline void check_dispatch(
                     COUNT("next_none", 1);
                 else
                     COUNT("next_ambig", 1);
+                digest = digest * 1099511628211ull ^ (unsigned long long)(got + 7);
                 if (obs_text)
                     *obs_text += "n" + std::to_string(mi) + "." +
                         std::to_string(di) + "=" + std::to_string(got) + " ";
@@ -191,7 +244,8 @@ inline void declare_dispatch_counters() {
     run::declare_counters(
         {"registries", "nontrivial", "updates", "registrations", "calls",
          "cells_def", "cells_none", "cells_ambig", "error_cells_checked",
-         "nexts", "next_def", "next_none", "next_ambig", "mi_registries"});
+         "nexts", "next_def", "next_none", "next_ambig", "mi_registries",
+         "digest", "alias_assignments"});
 }
 
 inline int dispatch_main() {
@@ -358,6 +412,136 @@ inline int abort_main() {
                     ++samples;
                     run::sample(rx::to_text(r) + " (one child per error cell)");
                 }
+            });
+    });
+}
+
+} // namespace drv
+
+// ---------------------------------------------------------------------------
+// C10: alias enumeration (flavours with several ids per class)
+namespace drv {
+
+// every use of a class id in the registry takes either alias: all 2^uses
+// assignments when uses <= limit, else four patterns
+template<class F>
+void for_each_alias_assignment(
+    rx::Registry& r, int limit, bool vary_records, F&& f) {
+    struct Use {
+        int kind, i, j;
+    };
+    std::vector<Use> uses;
+    for (int i = 0; i < r.nr; ++i) {
+        if (vary_records)
+            uses.push_back({0, i, 0});
+        for (int b = 0; b < r.recs[i].nb; ++b)
+            uses.push_back({1, i, b});
+    }
+    for (int mi = 0; mi < r.nm; ++mi) {
+        for (int k = 0; k < r.meths[mi].arity; ++k)
+            uses.push_back({2, mi, k});
+        for (int di = 0; di < r.meths[mi].nd; ++di)
+            for (int k = 0; k < r.meths[mi].arity; ++k)
+                uses.push_back({3, mi, di * 8 + k});
+    }
+    auto apply = [&](auto bit) {
+        for (int i = 0; i < r.nr; ++i) {
+            if (vary_records)
+                r.recs[i].alias = 0;
+            r.recs[i].base_alias = 0;
+        }
+        for (int mi = 0; mi < r.nm; ++mi) {
+            r.meths[mi].vp_alias = 0;
+            memset(r.meths[mi].def_alias, 0, sizeof r.meths[mi].def_alias);
+        }
+        for (size_t u = 0; u < uses.size(); ++u) {
+            if (!bit(u))
+                continue;
+            auto& x = uses[u];
+            if (x.kind == 0)
+                r.recs[x.i].alias = 1;
+            else if (x.kind == 1)
+                r.recs[x.i].base_alias |= 1u << x.j;
+            else if (x.kind == 2)
+                r.meths[x.i].vp_alias |= 1u << x.j;
+            else
+                r.meths[x.i].def_alias[x.j / 8] |= 1u << (x.j % 8);
+        }
+        f();
+    };
+    if ((int)uses.size() <= limit) {
+        for (unsigned long code = 0; code < (1ul << uses.size()); ++code)
+            apply([&](size_t u) { return (code >> u) & 1; });
+    } else {
+        apply([](size_t) { return 0; });
+        apply([](size_t) { return 1; });
+        apply([](size_t u) { return u & 1; });
+        apply([](size_t u) { return !(u & 1); });
+        apply([](size_t u) { return (u / 2) & 1; });
+        apply([](size_t u) { return (u % 3) == 0; });
+    }
+}
+
+inline int flavour_main() {
+    auto& o = run::g_opts;
+    declare_dispatch_counters();
+    g_alias_calls = 1;
+    int limit = geti("limit", 10);
+    if (!o.replay.empty()) {
+        run::g_sh = new run::Shared();
+        run::g_out = stdout;
+        rx::Registry r = rx::from_text(o.replay.c_str());
+        std::vector<Viol> v;
+        check_dispatch(r, o.props, v);
+        for (auto& x : v)
+            printf("VIOL\t%s\t%s\n", x.kind.c_str(), x.detail.c_str());
+        return v.empty() ? 0 : 1;
+    }
+    auto spaces = parse_spaces(o.space);
+    return run::run_sharded([&] {
+        long samples = 0;
+        for (auto& sp : spaces)
+            for_each_single_method_registry(sp, [&](const rx::Registry& r0) {
+              for (int doubled = 0; doubled <= 1; ++doubled) {
+                rx::Registry r = r0;
+                if (doubled) {
+                    // one record per id of each class: both ids are registered
+                    if (2 * r0.nr > rx::MAXR)
+                        continue;
+                    r.nr = 0;
+                    for (int i = 0; i < r0.nr; ++i)
+                        for (int al = 0; al < 2; ++al) {
+                            r.recs[r.nr] = r0.recs[i];
+                            r.recs[r.nr].alias = al;
+                            ++r.nr;
+                        }
+                }
+                bool nt = registry_nontrivial(r), mi = rx::has_mi(r.po);
+                for_each_alias_assignment(r, limit, !doubled, [&] {
+                    for (int c = 0; c < rx::MAXC; ++c)
+                        g_forced_alias[c] = doubled ? -1 : 0;
+                    if (!doubled)
+                        for (int i = 0; i < r.nr; ++i)
+                            g_forced_alias[r.recs[i].cls] = r.recs[i].alias;
+                    if (!run::g_gate.take(r))
+                        return;
+                    COUNT("registries", 1);
+                    COUNT("alias_assignments", 1);
+                    if (nt)
+                        COUNT("nontrivial", 1);
+                    if (mi)
+                        COUNT("mi_registries", 1);
+                    std::vector<Viol> v;
+                    check_dispatch(r, o.props, v);
+                    for (auto& x : v)
+                        run::candidate(x.kind.c_str(), rx::to_text(r), x.detail);
+                    if (o.shard == 0 && samples < 3 && r.po.n >= 2 &&
+                        r.meths[0].nd >= 1 && run::g_gate.idx % 37 == 5) {
+                        ++samples;
+                        run::sample(rx::to_text(r));
+                    }
+                });
+              }
             });
     });
 }
